@@ -282,6 +282,9 @@ func (e *Engine) RunEntry(cfg *EntryCfg, deadline time.Time) (*EntryResult, erro
 				if a.Verdict != "const-true" {
 					nontriv = true
 				}
+				if a.Verdict == "unknown" && len(res.EndMsgs["unknown-assert"]) < 3 {
+					res.EndMsgs["unknown-assert"] = append(res.EndMsgs["unknown-assert"], a.Label+" "+a.Where)
+				}
 				if a.Verdict == "VIOLATED" {
 					violSeen[a.Label]++
 					if violSeen[a.Label] <= 8 {
@@ -349,7 +352,7 @@ func (e *Engine) RunEntry(cfg *EntryCfg, deadline time.Time) (*EntryResult, erro
 	}
 	for l, vs := range res.Asserts {
 		if vs["unknown"] > 0 {
-			res.Inconclusive = append(res.Inconclusive, fmt.Sprintf("assertion %s: %d unknown solver answers", l, vs["unknown"]))
+			res.Inconclusive = append(res.Inconclusive, fmt.Sprintf("assertion %s: %d unknown solver answers (%s)", l, vs["unknown"], strings.Join(res.EndMsgs["unknown-assert"], " | ")))
 		}
 	}
 	for _, l := range cfg.RequireLabels {
